@@ -31,11 +31,11 @@ type genParams struct {
 
 // hashScript: outcome of every callback is a pure function of (seed, key)
 type hashScript struct {
-	seed     uint64
-	p        genParams
-	acts     []int
-	posts    int
-	override map[skey]func(Outcome) Outcome
+	seed      uint64
+	p         genParams
+	acts      []int
+	posts     int
+	override  map[skey]func(Outcome) Outcome
 	funcExecR map[int]bool // nodes whose exec is Result-style (may return error results)
 }
 
